@@ -22,8 +22,8 @@ type PropMap struct {
 type PropEntry struct {
 	Title          string              `json:"title"`
 	Pkgs           []string            `json:"pkgs"`
-	Units          []string            `json:"units"`            // unit short names (substring match on exact short name)
-	Only           map[string][]string `json:"only,omitempty"`   // unit -> obligation-name substrings owned by this property (default: all)
+	Units          []string            `json:"units"`             // unit short names (substring match on exact short name)
+	Only           map[string][]string `json:"only,omitempty"`    // unit -> obligation-name substrings owned by this property (default: all)
 	Exclude        map[string][]string `json:"exclude,omitempty"` // unit -> obligation-name substrings owned by another property
 	MinObligations int                 `json:"min_obligations"`
 	CheckLocks     bool                `json:"check_locks,omitempty"`
@@ -76,6 +76,15 @@ func verifDir() string {
 		return d
 	}
 	return "/verif"
+}
+
+// evidenceDir: where evidence and replay files are written (VERIF_EVIDENCE_DIR redirects it, used when a
+// check is run against a scratch copy of the repository so that the committed evidence is not overwritten).
+func evidenceDir(vd string) string {
+	if d := os.Getenv("VERIF_EVIDENCE_DIR"); d != "" {
+		return d
+	}
+	return filepath.Join(vd, "evidence")
 }
 
 func loadJSON(path string, v interface{}) error {
@@ -320,7 +329,7 @@ func runProperty(prop string, pe *PropEntry, kf *KnownFindings, repo, vd string,
 				}
 			} else {
 				res.Violations++
-				script := writeFailingScript(filepath.Join(vd, "evidence", "replays", prop), final, o)
+				script := writeFailingScript(filepath.Join(evidenceDir(vd), "replays", prop), final, o)
 				info := map[string]interface{}{
 					"obligation": o.Name, "kind": o.Kind, "clause": o.Src, "status": o.Status, "solver": o.Solver,
 					"solver_output": truncate(o.Output, 4000), "script": script, "unit": u.Name, "fail_part": o.FailPart,
@@ -370,6 +379,25 @@ func runProperty(prop string, pe *PropEntry, kf *KnownFindings, repo, vd string,
 	}
 	if res.Obligations < pe.MinObligations {
 		fail("vacuity:obligation-count", fmt.Sprintf("only %d obligations generated, committed minimum is %d (front-end failure?)", res.Obligations, pe.MinObligations))
+	}
+	// the slowest obligations (a slow query is the one that a loaded machine turns into a timeout)
+	{
+		idx := make([]int, len(res.Obligs))
+		for i := range idx {
+			idx[i] = i
+		}
+		sort.Slice(idx, func(a, b int) bool { return res.Obligs[idx[a]].Seconds > res.Obligs[idx[b]].Seconds })
+		var slow []map[string]interface{}
+		for k := 0; k < len(idx) && k < 8; k++ {
+			o := res.Obligs[idx[k]]
+			slow = append(slow, map[string]interface{}{"obligation": o.Name, "seconds": o.Seconds, "backend": o.Solver, "parts": o.Parts})
+		}
+		res.Extra["slowest_obligations"] = slow
+		if verbose {
+			for _, sl := range slow {
+				fmt.Printf("slow: %.2fs %v (%v)\n", sl["seconds"], sl["obligation"], sl["backend"])
+			}
+		}
 	}
 	// samples: a few obligations written out
 	for i, o := range res.Obligs {
@@ -435,7 +463,7 @@ func truncate(s string, n int) string {
 }
 
 func writeReplay(vd, prop, name string, info map[string]interface{}) string {
-	dir := filepath.Join(vd, "evidence", "replays", prop)
+	dir := filepath.Join(evidenceDir(vd), "replays", prop)
 	_ = os.MkdirAll(dir, 0o755)
 	fn := filepath.Join(dir, nameSan.ReplaceAllString(name, "_")+".json")
 	data, _ := json.MarshalIndent(info, "", " ")
@@ -444,7 +472,7 @@ func writeReplay(vd, prop, name string, info map[string]interface{}) string {
 }
 
 func writeEvidence(vd string, r *propResult) {
-	_ = os.MkdirAll(filepath.Join(vd, "evidence"), 0o755)
+	_ = os.MkdirAll(evidenceDir(vd), 0o755)
 	cov := map[string]interface{}{
 		"obligations":        r.Obligations,
 		"discharged":         r.Discharged,
@@ -478,7 +506,7 @@ func writeEvidence(vd string, r *propResult) {
 		"violations":  r.Violations,
 	}
 	data, _ := json.MarshalIndent(ev, "", " ")
-	_ = os.WriteFile(filepath.Join(vd, "evidence", r.Prop+".json"), data, 0o644)
+	_ = os.WriteFile(filepath.Join(evidenceDir(vd), r.Prop+".json"), data, 0o644)
 }
 
 func cmdReplay(args []string) int {
